@@ -166,7 +166,8 @@ func c04parse(b []byte) c04info {
 // c04model: what the node may have forgotten.
 type c04model struct {
 	self    string
-	n       uint64
+	n       uint64            // event buffer size
+	nq      uint64            // query buffer size
 	lt      map[string]uint64 // recorded status time of every known member
 	intent  map[string]uint64 // buffered intent time (unknown or formerly unknown nodes)
 	epoch   map[string]int    // number of times the record of a node was legitimately forgotten
@@ -177,8 +178,8 @@ type c04model struct {
 	clearT  int64           // virtual time of the last expiry of all buffered intents
 }
 
-func c04newModel(self string, n int, known []string) *c04model {
-	m := &c04model{self: self, n: uint64(n), lt: map[string]uint64{}, intent: map[string]uint64{}, epoch: map[string]int{},
+func c04newModel(self string, n, nq int, known []string) *c04model {
+	m := &c04model{self: self, n: uint64(n), nq: uint64(nq), lt: map[string]uint64{}, intent: map[string]uint64{}, epoch: map[string]int{},
 		evClock: 1, qClock: 1, last: map[string]int{}, seen: map[string]bool{}}
 	for _, k := range known {
 		m.lt[k] = 5
@@ -192,7 +193,7 @@ func c04witness(c *uint64, l uint64) {
 	}
 }
 
-func (m *c04model) inWindow(clock, l uint64) bool { return !(clock > m.n && l < clock-m.n) }
+func c04inWindow(clock, l, n uint64) bool { return !(clock > n && l < clock-n) }
 
 func (m *c04model) upsert(node string, l uint64) {
 	if cur, ok := m.intent[node]; !ok || l > cur {
@@ -288,8 +289,8 @@ func (c *c04node) fail(sig, format string, a ...interface{}) {
 	}
 }
 
-func c04new(name string, idx int, n int, peers []string, hist *[]string) *c04node {
-	node, err := world.NewNode(name, idx, func(c *serf.Config) { c.EventBuffer = n; c.QueryBuffer = n })
+func c04new(name string, idx int, n, nq int, peers []string, hist *[]string) *c04node {
+	node, err := world.NewNode(name, idx, func(c *serf.Config) { c.EventBuffer = n; c.QueryBuffer = nq })
 	if err != nil {
 		panic(err)
 	}
@@ -317,7 +318,7 @@ func c04new(name string, idx int, n int, peers []string, hist *[]string) *c04nod
 	vsched.Quiesce()
 	node.Outbox()
 	node.DrainEvents()
-	c := &c04node{n: node, m: c04newModel(name, n, known), hist: hist}
+	c := &c04node{n: node, m: c04newModel(name, n, nq, known), hist: hist}
 	// the set-up must have produced one member per state; the recorded status
 	// times (5 on the unchanged tree) are taken over as the model's starting point
 	st := serf.VDump(node.S)
@@ -385,15 +386,15 @@ func (c *c04node) deliver(b []byte) (out [][]byte, requeued bool) {
 			}
 			m.last[key] = e + 1
 		case "event":
-			if m.seen[key] && m.inWindow(m.evClock, oi.lt) {
+			if m.seen[key] && c04inWindow(m.evClock, oi.lt, m.n) {
 				c.fail("re-broadcast twice: user event inside the window",
-					"%s was re-broadcast a second time on delivery of %s while still inside the event window (event clock %d, buffer %d)", oi.desc, in.desc, m.evClock, m.n)
+					"%s was re-broadcast a second time on delivery of %s while still inside the event window (event clock %d, event buffer %d, query buffer %d)", oi.desc, in.desc, m.evClock, m.n, m.nq)
 			}
 			m.seen[key] = true
 		case "query":
-			if m.seen[key] && m.inWindow(m.qClock, oi.lt) {
+			if m.seen[key] && c04inWindow(m.qClock, oi.lt, m.nq) {
 				c.fail("re-broadcast twice: query inside the window",
-					"%s was re-broadcast a second time on delivery of %s while still inside the query window (query clock %d, buffer %d)", oi.desc, in.desc, m.qClock, m.n)
+					"%s was re-broadcast a second time on delivery of %s while still inside the query window (query clock %d, query buffer %d, event buffer %d)", oi.desc, in.desc, m.qClock, m.nq, m.n)
 			}
 			m.seen[key] = true
 		}
@@ -541,9 +542,9 @@ func init() {
 	vc.Register(&vc.Check{
 		ID:    "C04",
 		Level: "model_checking",
-		Rule:  "histories: every sequence WITH repetition of deliveries to one real Serf node whose member table was filled through the real handlers with one member per state (b unknown, c alive, d leaving, e left, f failed, the node itself alive; recorded status time 5); shorter sequences are checked as prefixes (oracle after every step). intents/<state> (one scenario per member X; quick length 4): join intents about X at times {5,6,7}, leave intents at {5,6,7}, pruning leave intents at {6,7} (equal/higher than the record, lower/equal/higher than a buffered intent), state-sync merges carrying X as joined at 6 / as left after 5, memberlist alive notification about X, a 6 min tick (expires buffered intents; for b also a 40 s tick that must not). Thorough: 'wide' (length 4: also time 4, prune at 5, 40 s tick, memberlist dead notification) and 'deep' (length 5 on 10-11 letters). events/queries for buffer sizes 2 and 4 (length 4; thorough length 5 for buffer 2): user events (2 names, times 0,1,N,N+1,2N+1 colliding in slots), queries (ids 7,8,9, slot collisions, NoBroadcast flag, a filter excluding the node), merges carrying events or moving the event/query clock, the node's own UserEvent/Query and the echo of it. mixed (length 4 quick, 5 thorough; thorough also length 6 on 7 letters): letters of every kind over all members incl. merges naming everybody. Each step is Delegate.NotifyMsg / MergeRemoteState / a local call on the real node, run to quiescence, then the broadcast queue is drained and queued copies are counted per message (byte identity). closure: two real nodes a1, a2 with the same member table (knowing each other), every ordered pair (thorough: also triples on a reduced alphabet) of 70 messages (intents about a1,a2,b..f at 5,6,7, events, queries) injected into a1 (or into both), then each node's queue is fed to the other until both are empty. A state is the canonical private state after a history. non-trivial = history/closure in which at least one delivery was NOT re-broadcast (duplicate, stale or refused message)",
+		Rule:  "histories: every sequence WITH repetition of deliveries to one real Serf node whose member table was filled through the real handlers with one member per state (b unknown, c alive, d leaving, e left, f failed, the node itself alive; recorded status time 5); shorter sequences are checked as prefixes (oracle after every step). intents/<state> (one scenario per member X; quick length 4): join intents about X at times {5,6,7}, leave intents at {5,6,7}, pruning leave intents at {6,7} (equal/higher than the record, lower/equal/higher than a buffered intent), state-sync merges carrying X as joined at 6 / as left after 5, memberlist alive notification about X, a 6 min tick (expires buffered intents; for b also a 40 s tick that must not). Thorough: 'wide' (length 4: also time 4, prune at 5, 40 s tick, memberlist dead notification) and 'deep' (length 5 on 10-11 letters). events/queries for equal event and query buffer sizes 2 and 4 (length 4; thorough length 5 for buffer 2): user events (2 names, times 0,1,N,N+1,2N+1 colliding in slots), queries (ids 7,8,9, slot collisions, NoBroadcast flag, a filter excluding the node), merges carrying events or moving the event/query clock, the node's own UserEvent/Query and the echo of it; events/queries with UNEQUAL rings (EventBuffer 8 / QueryBuffer 2 and 2 / 8; length 4, thorough 5): times 0, 1, r+1, 2r+1 (slot collisions of the ring under test, size r) and o+1, o+r+1 (around the window edge of the other ring, size o), merges moving the clock past both edges (2r+2, 2o+2), the node's own UserEvent/Query. mixed (length 4 quick, 5 thorough; thorough also length 6 on 7 letters): letters of every kind over all members incl. merges naming everybody. Each step is Delegate.NotifyMsg / MergeRemoteState / a local call on the real node, run to quiescence, then the broadcast queue is drained and queued copies are counted per message (byte identity). closure: two real nodes a1, a2 with the same member table (knowing each other), every ordered pair (thorough: also triples on a reduced alphabet) of 70 messages (intents about a1,a2,b..f at 5,6,7, events, queries) injected into a1 (or into both), then each node's queue is fed to the other until both are empty; plus pairs of events/queries at times 1,3,5,9,11 with rings 8/2 and 2/8. A state is the canonical private state after a history. non-trivial = history/closure in which at least one delivery was NOT re-broadcast (duplicate, stale or refused message)",
 		Assumptions: []string{
-			"'retention window' (epoch) of an intent about X ends when the node legitimately forgets it: X's member record is erased by an accepted pruning leave (the same message is then new again), or the buffered intent about an unknown X expires (RecentIntentTimeout); for user events and queries it ends when the Lamport time leaves the node's window (clock - buffer size). Erasure by the reaper after Tombstone/Reconnect timeouts (24 h) is not explored",
+			"'retention window' (epoch) of an intent about X ends when the node legitimately forgets it: X's member record is erased by an accepted pruning leave (the same message is then new again), or the buffered intent about an unknown X expires (RecentIntentTimeout); for user events and queries it ends when the Lamport time leaves the node's window for that kind (event clock - EventBuffer for user events, query clock - QueryBuffer for queries). Erasure by the reaper after Tombstone/Reconnect timeouts (24 h) is not explored",
 			"only copies of a delivered message count as re-broadcasts; the node's own originations (UserEvent, Query, refuting join about itself) do not",
 			"a state-sync merge may leave exactly one kind of broadcast behind: the node's refuting join when the merge claims the node itself has left",
 			"closure bound: without time passing a node can re-broadcast one message at most twice (once as known member, once more after a prune erased the record), so two nodes feeding each other must fall silent within 4*(distinct messages)+2 exchange rounds",
@@ -556,6 +557,7 @@ func init() {
 type c04scn struct {
 	name   string
 	n      int
+	nq     int // query buffer size (0: same as n)
 	depth  int
 	acts   []c04act
 	member string
@@ -617,6 +619,29 @@ func c04queryAlphabet(n int) []c04act {
 	}
 }
 
+// c04unequalEvents / c04unequalQueries: the event ring has size r and the query
+// ring size o (resp. the other way round); Lamport times sit around BOTH window
+// edges (clock-r and clock-o) and collide in the slots of the ring under test.
+func c04unequalEvents(r, o int) []c04act {
+	R, O := uint64(r), uint64(o)
+	return []c04act{
+		c04event(0, "u"), c04event(1, "u"), c04event(R+1, "u"), c04event(2*R+1, "u"), c04event(O+1, "u"), c04event(O+R+1, "u"),
+		{kind: "uevent", label: "UserEvent()"},
+		c04merge(fmt.Sprintf("event clock %d", 2*R+2), nil, nil, nil, 2*R+2, 1),
+		c04merge(fmt.Sprintf("event clock %d", 2*O+2), nil, nil, nil, 2*O+2, 1),
+	}
+}
+
+func c04unequalQueries(r, o int) []c04act {
+	R, O := uint64(r), uint64(o)
+	return []c04act{
+		c04query(0, 7, false, false), c04query(1, 7, false, false), c04query(R+1, 7, false, false), c04query(2*R+1, 7, false, false), c04query(O+1, 7, false, false), c04query(O+R+1, 7, false, false),
+		{kind: "uquery", label: "Query()"},
+		c04merge(fmt.Sprintf("query clock %d", 2*R+2), nil, nil, nil, 1, 2*R+2),
+		c04merge(fmt.Sprintf("query clock %d", 2*O+2), nil, nil, nil, 1, 2*O+2),
+	}
+}
+
 func c04mixedAlphabet(deep bool) []c04act {
 	all6 := map[string]uint64{"a": 6, "b": 6, "c": 6, "d": 6, "e": 6, "f": 6}
 	all5 := map[string]uint64{"a": 5, "b": 5, "c": 5, "d": 5, "e": 5, "f": 5}
@@ -659,6 +684,12 @@ func c04run(ctx *vc.Ctx) {
 		scs = append(scs, c04scn{name: fmt.Sprintf("events/buffer=%d", n), n: n, depth: de, acts: c04eventAlphabet(n)})
 		scs = append(scs, c04scn{name: fmt.Sprintf("queries/buffer=%d", n), n: n, depth: de, acts: c04queryAlphabet(n)})
 	}
+	// unequal event and query rings: each handler must use its own ring size
+	for _, p := range [][2]int{{8, 2}, {2, 8}} {
+		ne, nq := p[0], p[1]
+		scs = append(scs, c04scn{name: fmt.Sprintf("events/buffers=%d,%d", ne, nq), n: ne, nq: nq, depth: d, acts: c04unequalEvents(ne, nq)})
+		scs = append(scs, c04scn{name: fmt.Sprintf("queries/buffers=%d,%d", ne, nq), n: ne, nq: nq, depth: d, acts: c04unequalQueries(nq, ne)})
+	}
 	scs = append(scs, c04scn{name: "mixed", n: 2, depth: d, acts: c04mixedAlphabet(false)})
 	if th {
 		scs = append(scs, c04scn{name: "mixed/deep", n: 2, depth: 6, acts: c04mixedAlphabet(true)})
@@ -694,7 +725,11 @@ func c04history(ctx *vc.Ctx, scn *vc.Scenario, sc c04scn, seq []int) {
 	var viol, sig, final, mismatch string
 	nontrivial := false
 	x := vsched.Run(vsched.RunOpts{MaxSteps: 2000000}, func() {
-		c := c04new("a", 0, sc.n, nil, &hist)
+		nq := sc.nq
+		if nq == 0 {
+			nq = sc.n
+		}
+		c := c04new("a", 0, sc.n, nq, nil, &hist)
 		for _, ai := range seq {
 			a := sc.acts[ai]
 			hist = append(hist, a.label)
@@ -772,19 +807,31 @@ func c04closures(ctx *vc.Ctx) {
 		}
 		c04closureScn(ctx, name, acts, k, both)
 	}
+	// unequal rings: events and queries only, times around both window edges
+	for _, p := range [][2]int{{8, 2}, {2, 8}} {
+		var acts []c04act
+		for _, l := range []uint64{1, 3, 5, 9, 11} {
+			acts = append(acts, c04event(l, "u"), c04query(l, 7, false, false))
+		}
+		c04closureScn(ctx, fmt.Sprintf("closure/pairs into a1, buffers=%d,%d", p[0], p[1]), acts, 2, false, p[0], p[1])
+	}
 	if ctx.Thorough() {
 		c04closureScn(ctx, "closure/triples into a1", c04closureAlphabet(true), 3, false)
 	}
 }
 
-func c04closureScn(ctx *vc.Ctx, name string, acts []c04act, k int, both bool) {
+func c04closureScn(ctx *vc.Ctx, name string, acts []c04act, k int, both bool, bufs ...int) {
+	ne, nq := 2, 2
+	if len(bufs) == 2 {
+		ne, nq = bufs[0], bufs[1]
+	}
 	scn := ctx.Scn(name, "cases")
 	seq := make([]int, k)
 	idx := 0
 	for {
 		idx++
 		if ctx.Mine(idx) {
-			c04closure(ctx, scn, acts, seq, both)
+			c04closure(ctx, scn, acts, seq, both, ne, nq)
 		}
 		i := k - 1
 		for i >= 0 {
@@ -801,14 +848,14 @@ func c04closureScn(ctx *vc.Ctx, name string, acts []c04act, k int, both bool) {
 	}
 }
 
-func c04closure(ctx *vc.Ctx, scn *vc.Scenario, acts []c04act, seq []int, both bool) {
+func c04closure(ctx *vc.Ctx, scn *vc.Scenario, acts []c04act, seq []int, both bool, ne, nq int) {
 	var hist []string
 	var viol, sig string
 	nontrivial := false
 	rounds := 0
 	x := vsched.Run(vsched.RunOpts{MaxSteps: 4000000}, func() {
-		a1 := c04new("a1", 0, 2, []string{"a2"}, &hist)
-		a2 := c04new("a2", 1, 2, []string{"a1"}, &hist)
+		a1 := c04new("a1", 0, ne, nq, []string{"a2"}, &hist)
+		a2 := c04new("a2", 1, ne, nq, []string{"a1"}, &hist)
 		distinct := map[string]bool{}
 		var to2, to1 [][]byte // queued by a1 for a2, by a2 for a1
 		note := func(ms [][]byte) {
